@@ -71,6 +71,12 @@ pub fn candidates(seed: u64) -> Vec<Value> {
     let mut nx = |n: u64| { s = s.wrapping_mul(6364136223846793005).wrapping_add(1442695040888963407); (s >> 33) % n };
     out.push(json!({"case": "order_heur", "cnf": [[1]]}));
     out.push(json!({"case": "order_heur", "cnf": [[1, 2], [2, 3], [3, 4], [4, 5]]}));
+    for _ in 0..10 {
+        // a formula over 66-70 variables, most of them in no clause
+        let nv = 66 + nx(5) as i64;
+        let cnf: Vec<Vec<i64>> = vec![vec![1, -nv], vec![2, 65, -3], vec![nv - 1, 64], vec![nv]];
+        out.push(json!({"case": "order_heur", "cnf": cnf}));
+    }
     for _ in 0..200 {
         let nv = 1 + nx(6);
         let ncl = 1 + nx(6);
